@@ -503,7 +503,9 @@ func ruleG1bRetry(r *Run) {
 				for n2 := parents[ast.Node(c)]; n2 != nil; n2 = parents[n2] {
 					if ifs, ok := n2.(*ast.IfStmt); ok {
 						inside := rec.Pos() >= ifs.Pos() && rec.End() <= ifs.End()
-						if !inside {
+						// a call in the init statement or the condition runs whenever the if is reached
+						inHead := c.End() <= ifs.Body.Pos()
+						if !inside && !inHead {
 							okDom = false
 						}
 					}
